@@ -87,6 +87,11 @@ fn abs_apply(sh: &Shape, d: &mut D, op: &Op, ret: &str, cap: Option<usize>) -> O
         Op::FClear => { abs_items(d).clear(); Some("ok".into()) }
         Op::Item(i, o) => { let v = abs_items(d); if *i < v.len() { let e = match sh { Shape::Flex(e, _) => e, _ => panic!() }; abs_apply(e, &mut v[*i], o, ret, None) } else { Some("noitem".into()) } }
         Op::Assign(x) => { if ret == "ok" { *d = x.strip_def(); } None }
+        Op::SetField(v, i, x) => match d {
+            D::Struct(f, _) => { f[*i] = x.clone(); Some("ok".into()) }
+            D::Enum(k, f, _) => { if k == v { f[*i] = x.clone(); Some("ok".into()) } else { Some("novariant".into()) } }
+            _ => panic!("abs: not a struct / enum"),
+        },
     }
 }
 /// capacity of the top-level container as the walk reports it (`V<cap>[` / `S<cap>:`)
@@ -141,13 +146,24 @@ fn gen_op(sh: &Shape, cur: &D, rng: &mut Rng, depth: usize) -> Op {
                 5 => Op::FPop,
                 6 => Op::FTruncate(rng.below(n as u64 + 2) as usize),
                 7 => if rng.chance(1, 4) { Op::FClear } else { Op::FPop },
-                8..=10 if n > 0 && (e.is_sized() || matches!(**e, Shape::Vec(..) | Shape::Str(..) | Shape::Flex(..))) => {
+                8..=10 if n > 0 && (e.is_sized() || matches!(**e, Shape::Vec(..) | Shape::Str(..) | Shape::Flex(..) | Shape::UStruct(..) | Shape::UEnum(..))) => {
                     let i = rng.below(n as u64) as usize;
                     let item = match cur { D::FlexIter(v) => &v[i], _ => unreachable!() };
                     Op::Item(i, Box::new(gen_op(e, item, rng, depth + 1)))
                 }
                 _ => Op::FPush(gen_init(e, rng, depth + 1)),
             }
+        }
+        Shape::UStruct(fs) if fs.len() >= 2 => {
+            let i = rng.below(fs.len() as u64 - 1) as usize;
+            Op::SetField(0, i, gen_sized(&fs[i], rng))
+        }
+        Shape::UEnum(_, vs) => {
+            // mostly the current variant; now and then another one (the accessor must then leave the value alone)
+            let cur_v = match cur { D::Enum(k, _, _) => *k, _ => 0 };
+            let v = if rng.chance(5, 6) { cur_v } else { rng.below(vs.len() as u64) as usize };
+            let sized: Vec<usize> = vs[v].iter().enumerate().filter(|(_, f)| f.is_sized()).map(|(j, _)| j).collect();
+            if sized.is_empty() { Op::Assign(cur.clone()) } else { let i = sized[rng.below(sized.len() as u64) as usize]; Op::SetField(v, i, gen_sized(&vs[v][i], rng)) }
         }
         _ => Op::Assign(gen_init(sh, rng, depth + 1)),
     }
@@ -163,7 +179,8 @@ pub fn run(reg: &[Box<dyn TypeOps>], cfg: &Cfg, out: &mut dyn Write) {
         if let Some(o) = cfg.only { if o != tid { continue; } }
         if tid < cfg.from { continue; }
         let sh = parse(t.desc());
-        if !matches!(sh, Shape::Vec(..) | Shape::Str(..) | Shape::Flex(..)) { continue; }
+        let fielded = matches!(sh, Shape::UStruct(..) | Shape::UEnum(..));
+        if !matches!(sh, Shape::Vec(..) | Shape::Str(..) | Shape::Flex(..)) && !fielded { continue; }
         let mut rng = Rng::new(cfg.seed ^ ((tid as u64 + 1) * 0x2545F491));
         let al = t.align();
         // boundary histories for 1-byte offset types: an item whose link offset lands on / next to `L::MAX`, then another push
@@ -183,22 +200,22 @@ pub fn run(reg: &[Box<dyn TypeOps>], cfg: &Cfg, out: &mut dyn Write) {
                 }
             }
         }
-        let n_hist = boundary.len() + cfg.scale * if cfg.thorough { 60 } else { 10 };
-        let n_steps = if cfg.thorough { 60 } else { 25 };
+        let n_hist = boundary.len() + cfg.scale * if cfg.thorough { 60 } else { 10 } / if fielded { 2 } else { 1 };
+        let n_steps = if fielded { 8 } else if cfg.thorough { 60 } else { 25 };
         for h in 0..n_hist {
             // buffer sizes: from the minimum to comfortably large; sometimes beyond what a u8 length can count
             let scripted: Option<Vec<Op>> = if h < boundary.len() { Some(boundary[h].clone()) } else { None };
             let room = if scripted.is_some() { 700 } else { t.min_size() + match rng.below(6) { 0 => rng.below(3) as usize, 1 => rng.below(12) as usize, 2 | 3 => 8 + rng.below(40) as usize, 4 => 40 + rng.below(120) as usize, _ => 250 + rng.below(120) as usize } };
             let place = if (PAGE - room) % al == 0 && h % 2 == 0 { Place::End } else { Place::Mid(0) };
             let mut state = rng.bytes(room);
-            // start from the default (empty) container emplaced on garbage
+            // start from the default (empty) container emplaced on garbage; a struct / enum from a generated content
+            let d0 = match sh { Shape::Vec(..) => D::VecEmpty, Shape::Str(..) => D::StrFrom(vec![]), Shape::Flex(..) => D::FlexEmpty, _ => gen_init(&sh, &mut rng, 0).strip_def() };
             {
                 let (_, sl) = ar.place(&state, place, FILL);
-                let d0 = match sh { Shape::Vec(..) => D::VecEmpty, Shape::Str(..) => D::StrFrom(vec![]), _ => D::FlexEmpty };
                 if !matches!(guarded(|| t.new_in_place(sl, &d0)), Some(Ok(()))) { continue; }
                 state = sl.to_vec();
             }
-            let mut abs = match sh { Shape::Vec(..) => D::VecIter(vec![]), Shape::Str(..) => D::StrFrom(vec![]), _ => D::FlexIter(vec![]) };
+            let mut abs = match sh { Shape::Vec(..) => D::VecIter(vec![]), Shape::Str(..) => D::StrFrom(vec![]), Shape::Flex(..) => D::FlexIter(vec![]), _ => d0.clone() };
             let p0 = probe_str(t.as_ref(), { let (_, sl) = ar.place(&state, place, FILL); sl });
             let cap0 = top_cap(&p0);
             let steps = scripted.as_ref().map(|v| v.len()).unwrap_or(n_steps);
